@@ -69,10 +69,17 @@ func runCaseInBubble(t *testing.T, c *Case, trace bool) (v Verdict) {
 		runtime.GOMAXPROCS(runtime.NumCPU())
 		if r := recover(); r != nil {
 			msg := fmt.Sprint(r)
+			if v.Kind == "violation" || v.Kind == "crash" {
+				// the case already failed; goroutines left behind by the early
+				// return are a consequence, not a second finding
+				return
+			}
 			switch {
 			case strings.Contains(msg, "main bubble goroutine has exited"):
 				v.Kind = "leak"
-				v.Reason = msg
+				buf := make([]byte, 1<<20)
+				buf = buf[:runtime.Stack(buf, true)]
+				v.Reason = msg + "\n" + leakedGoroutines(string(buf))
 			case strings.Contains(msg, "all goroutines in bubble are blocked"):
 				v.Kind = "deadlock"
 				v.Reason = msg
@@ -324,4 +331,24 @@ func crashSummary(stderr string) string {
 		}
 	}
 	return "worker process died without a verdict"
+}
+
+
+// leakedGoroutines extracts the goroutines that still belong to a synctest bubble from a full dump.
+func leakedGoroutines(dump string) string {
+	var out []string
+	for _, g := range strings.Split(dump, "\n\n") {
+		first, _, _ := strings.Cut(g, "\n")
+		if strings.Contains(first, "synctest bubble") {
+			lines := strings.Split(g, "\n")
+			if len(lines) > 14 {
+				lines = lines[:14]
+			}
+			out = append(out, strings.Join(lines, "\n"))
+		}
+	}
+	if len(out) > 6 {
+		out = out[:6]
+	}
+	return strings.Join(out, "\n\n")
 }
